@@ -24,6 +24,14 @@ def _t(x):
         return z3.FPVal(float(x), SORT)
     if isinstance(x, core.R) and x.is_concrete():
         return z3.FPVal(float(x.v), SORT)
+    if isinstance(x, core.BV):
+        # numpy: sized integer next to a float64 -> float64 (correctly rounded conversion)
+        t = z3.simplify(x.term)
+        if z3.is_bv_value(t):
+            return z3.FPVal(float(t.as_signed_long() if x.signed else t.as_long()), SORT)
+        return z3.fpSignedToFP(RM, t, SORT) if x.signed else z3.fpUnsignedToFP(RM, t, SORT)
+    if isinstance(x, core.Z) and x.is_concrete():
+        return z3.FPVal(float(x.v), SORT)
     return None
 
 
